@@ -348,7 +348,9 @@ impl Tokenizer<'_> {
 
             State::Pound(start) => Err(KikiErr::Lex(start, Some('#'))),
 
-            State::OuterAttribute(start, _, end) => self.finish_outer_attribute(start, end),
+            // This arm is only reached at the end of input (a closing bracket
+            // finishes the attribute directly): the attribute is unterminated.
+            State::OuterAttribute(_, _, _) => Err(KikiErr::Lex(current_index, current)),
         }?;
 
         self.state = State::Main;
